@@ -10,7 +10,7 @@ Require Import Blots.Num Blots.Outcome Blots.DisplayNum.
 Require Import Blots.proofs.DisplayNumGroup Blots.proofs.DisplayNumSpec Blots.proofs.DisplayNumText
                Blots.proofs.DisplayNumInt Blots.proofs.DisplayNum Blots.proofs.DisplayNumAcc
                Blots.proofs.DisplayNumFloat Blots.proofs.DisplayNumFinite Blots.proofs.DisplayNumAccStd
-               Blots.proofs.DisplayNumAccAll.
+               Blots.proofs.DisplayNumAccAll Blots.proofs.DisplayNumExec.
 From Coq Require Import Qreals.
 Import ListNotations.
 Open Scope char_scope.
@@ -483,6 +483,28 @@ Check C20_accuracy : forall log10 powi fmt_prec fmt_exp14 parse_f64,
   (Rabs (Q2R (denote t) - RV x) < p10 (K - 14))%R.
 Print Assumptions C20_accuracy.
 (* terminates the axiom block for the driver's Print-Assumptions parser *)
+Print Assumptions C20_names.
+
+(* ---- the powi hypotheses of C20_accuracy hold for the executable powi model (compiler-builtins
+        __powidf2 over SFmul/SFdiv), which the ORACLE-powi stream compares with Rust's f64::powi
+        on 10^-30 .. 10^30 and random bases on every run ---- *)
+Theorem C20_powi_model_exact : forall j, 0 <= j <= 22 ->
+  valid (powi_exec c_ten j) /\ (exists s m e, powi_exec c_ten j = S754_finite s m e) /\
+  RV (powi_exec c_ten j) = p10 j.
+Proof. exact powi_exec_exact. Qed.
+Check C20_powi_model_exact : forall j, 0 <= j <= 22 ->
+  valid (powi_exec c_ten j) /\ (exists s m e, powi_exec c_ten j = S754_finite s m e) /\
+  RV (powi_exec c_ten j) = p10 j.
+Print Assumptions C20_powi_model_exact.
+Print Assumptions C20_names.
+Theorem C20_powi_model_negative : forall j, -4 <= j <= -1 ->
+  valid (powi_exec c_ten j) /\ (exists s m e, powi_exec c_ten j = S754_finite s m e) /\
+  RV (powi_exec c_ten j) = rnd64 (p10 j) /\ (p10 j <= RV (powi_exec c_ten j))%R.
+Proof. exact powi_exec_neg. Qed.
+Check C20_powi_model_negative : forall j, -4 <= j <= -1 ->
+  valid (powi_exec c_ten j) /\ (exists s m e, powi_exec c_ten j = S754_finite s m e) /\
+  RV (powi_exec c_ten j) = rnd64 (p10 j) /\ (p10 j <= RV (powi_exec c_ten j))%R.
+Print Assumptions C20_powi_model_negative.
 Print Assumptions C20_names.
 
 (* REFUTED on the code before /repo commit 60da55e (fx = false), finding C20-F1 (now fixed):
